@@ -36,17 +36,19 @@ Print Assumptions C20_losses_pinned.
     scaled or not; every residual applies y0, then the routed parameters, then the routed variables to the
     SHARED model, selects the data's names and returns +inf on a failed simulation; every wrapper copies
     FIRST (default on), routes names by membership, packs (parameters, residual) into Fit; the SciPy wrapper
-    packs by position with default bounds (1e-6, 1e6) *)
+    packs by position with default bounds (1e-6, 1e6); NOTHING runs on the caller's object in front of the copy
+    guard (last field of the wrapper facts: [[]]); the batch editors Model.update_variables (y0) and
+    Model.update_parameters (protocol steps) validate ALL names before they write anything (/repo 037a1c8) *)
 Theorem C20_fit_facts_pinned :
   gen_fit_facts =
   mkFitFacts DataFirst DataFirst true
     (mkResidualFacts [UpdY0; UpdPars; UpdVars] SelDataIndex FailInf true true)
     (mkResidualFacts [UpdY0; UpdPars; UpdVars] SelDataColumns FailInf true true)
     (mkResidualFacts [UpdY0; UpdPars; UpdVars] SelDataColumns FailInf true true)
-    (mkWrapperFacts true true true true true true true)
-    (mkWrapperFacts true true true true true true true)
-    (mkWrapperFacts true true true true true true true)
-    (1 # 1000000) (1000000 # 1) true true true.
+    (mkWrapperFacts true true true true true true true [])
+    (mkWrapperFacts true true true true true true true [])
+    (mkWrapperFacts true true true true true true true [])
+    (1 # 1000000) (1000000 # 1) true true true BatchValidated BatchValidated.
 Proof. vm_compute. reflexivity. Qed.
 Print Assumptions C20_fit_facts_pinned.
 
@@ -130,8 +132,8 @@ Print Assumptions C20_loss_laws_refuted_cosine.
 Theorem C20_residual_is_loss_of_prediction :
   forall (T : Type) (O : num_ops T) (k : fit_kind) (S : settings) (st : mstate) (u : list (name * T))
          (st1 st2 : mstate) (rows : list (Q * list (name * T))) (pred : list (list T)),
-    apply_phases S u [UpdY0; UpdPars; UpdVars] st = (st1, None) ->
-    simulate O k S st1 = (st2, SimRows rows) ->
+    apply_phases gen_fit_facts S u [UpdY0; UpdPars; UpdVars] st = (st1, None) ->
+    simulate O gen_fit_facts k S st1 = (st2, SimRows rows) ->
     prediction (match k with KSteady => SelDataIndex | _ => SelDataColumns end) k S rows = inl (Some pred) ->
     residual_step O gen_fit_facts k S st u =
       (st2, RVal (if s_scale S
@@ -139,6 +141,32 @@ Theorem C20_residual_is_loss_of_prediction :
                   else s_loss S (concat (s_data S)) (concat pred))).
 Proof. exact (residual_structure_expected gen_fit_facts C20_fit_facts_pinned). Qed.
 Print Assumptions C20_residual_is_loss_of_prediction.
+
+(** [model.update_variables(y0)] with a name the model does not have is REJECTED AS A WHOLE: the KeyError leaves the
+    shared model exactly as it was (the batch editor validates all names first, /repo 037a1c8) ... *)
+Theorem C20_rejected_y0_changes_nothing :
+  forall (T : Type) (S : settings) (u : list (name * T)) (st st' : mstate) (e : err),
+    apply_phase gen_fit_facts S u UpdY0 st = (st', Some e) -> st' = st.
+Proof. exact (y0_rejected_expected gen_fit_facts C20_fit_facts_pinned). Qed.
+Print Assumptions C20_rejected_y0_changes_nothing.
+
+(** ... whereas the plain fold of the single-item editor (the code before that commit; facts [BatchFold]) wrote the
+    entries in front of the unknown name: y0 = {x: 3, unknown: 1} leaves x = 3 behind and raises *)
+Theorem C20_fold_batch_editor_writes_before_it_raises :
+  exists (S : settings) (u : list (name * oQ)) (st : mstate),
+    let fold := mkFitFacts DataFirst DataFirst true
+                  (mkResidualFacts [UpdY0; UpdPars; UpdVars] SelDataIndex FailInf true true)
+                  (mkResidualFacts [UpdY0; UpdPars; UpdVars] SelDataColumns FailInf true true)
+                  (mkResidualFacts [UpdY0; UpdPars; UpdVars] SelDataColumns FailInf true true)
+                  (mkWrapperFacts true true true true true true true [])
+                  (mkWrapperFacts true true true true true true true [])
+                  (mkWrapperFacts true true true true true true true [])
+                  (1 # 1000000) (1000000 # 1) true true true BatchFold BatchFold in
+    apply_phase fold S u UpdY0 st = (mkState (ms_pars st) (al [(10%N, 3%Q)]), Some ErrKey) /\
+    ms_vars st = al [(10%N, 1%Q)] /\
+    apply_phase gen_fit_facts S u UpdY0 st = (st, Some ErrKey).
+Proof. exact fold_y0_partial_write. Qed.
+Print Assumptions C20_fold_batch_editor_writes_before_it_raises.
 
 (** the residual functions mutate one shared model, yet the residual at a candidate does not depend on
     the candidates evaluated before: after ANY history [us] of calls on the shared settings object the
@@ -161,7 +189,7 @@ Theorem C20_reported_loss_is_loss_at_reported :
     honest [] (minimiser p0) ->
     fit O gen_fit_facts k S as_deepcopy caller p0 minimiser = (caller_after, FitOk fit_model best_pars loss) ->
     snd (residual_step O gen_fit_facts k (route S caller p0) caller best_pars) = RVal loss.
-Proof. exact (fun T O => fit_reported_loss O gen_fit_facts). Qed.
+Proof. exact (reported_loss_expected gen_fit_facts C20_fit_facts_pinned). Qed.
 Print Assumptions C20_reported_loss_is_loss_at_reported.
 
 (** never worse than the starting point: for every minimiser that first evaluates [p0] and answers
@@ -175,7 +203,7 @@ Theorem C20_not_worse_than_start :
     fit O gen_fit_facts k S as_deepcopy caller p0 (fun p => Ask p continue_with) = (caller_after, FitOk fit_model best_pars loss) ->
     snd (residual_step O gen_fit_facts k (route S caller p0) caller p0) = RInf
     \/ exists b, snd (residual_step O gen_fit_facts k (route S caller p0) caller p0) = RVal b /\ le loss b.
-Proof. exact (fun T O => fit_not_worse_than_start O gen_fit_facts). Qed.
+Proof. exact (not_worse_than_start_expected gen_fit_facts C20_fit_facts_pinned). Qed.
 Print Assumptions C20_not_worse_than_start.
 
 (** with copying enabled (explicitly or by default) the caller's model is left unchanged, whatever the
@@ -195,6 +223,39 @@ Theorem C20_without_copy_input_changes :
 Proof. exact (without_copy_input_changes gen_fit_facts C20_fit_facts_pinned). Qed.
 Print Assumptions C20_without_copy_input_changes.
 
+(** the caller's model INCLUDES its initial conditions ([ms_vars]); the theorem above needs the fact that nothing
+    runs in front of the copy guard: with an early [model.update_variables(y0)] there (the shape of seeded change
+    C20-3) the fit result is the same, the caller's parameters are the same, yet its initial conditions change *)
+Theorem C20_y0_before_copy_reaches_caller :
+  exists (k : fit_kind) (S : settings) (caller : mstate) (p0 : list (name * oQ)) (minimiser : list (name * oQ) -> strat),
+    let y0_first := mkWrapperFacts true true true true true true true [UpdY0] in
+    let facts := mkFitFacts DataFirst DataFirst true
+                   (mkResidualFacts [UpdY0; UpdPars; UpdVars] SelDataIndex FailInf true true)
+                   (mkResidualFacts [UpdY0; UpdPars; UpdVars] SelDataColumns FailInf true true)
+                   (mkResidualFacts [UpdY0; UpdPars; UpdVars] SelDataColumns FailInf true true)
+                   y0_first y0_first y0_first (1 # 1000000) (1000000 # 1) true true true BatchValidated BatchValidated in
+    let r := fit QoOps facts k S None caller p0 minimiser in
+    ms_pars (fst r) = ms_pars caller /\ ms_vars (fst r) <> ms_vars caller /\
+    snd r = snd (fit QoOps gen_fit_facts k S None caller p0 minimiser).
+Proof. exact y0_before_copy_reaches_caller. Qed.
+Print Assumptions C20_y0_before_copy_reaches_caller.
+
+(** without copying the caller's model is the minimiser's work model, but even then a fit changes ONLY the named
+    entries: parameters among the routed names of p0 (and the protocol's columns), variables among y0's names and
+    the routed names of p0; every other parameter value and initial condition is what it was (any minimiser) *)
+Theorem C20_without_copy_only_named_entries_change :
+  forall (T : Type) (O : num_ops T) (k : fit_kind) (S : settings) (caller : mstate) (p0 : list (name * T))
+         (minimiser : list (name * T) -> strat),
+    let S' := route S caller p0 in
+    let after := fst (fit O gen_fit_facts k S (Some false) caller p0 minimiser) in
+    keys (ms_pars after) = keys (ms_pars caller) /\ keys (ms_vars after) = keys (ms_vars caller) /\
+    (forall n, memN n (s_p_names S' ++ match k with KProtocol => s_proto_names S | _ => [] end) = false ->
+               lookup n (ms_pars after) = lookup n (ms_pars caller)) /\
+    (forall n, memN n (match s_y0 S with Some y0 => keys y0 | None => [] end ++ s_v_names S') = false ->
+               lookup n (ms_vars after) = lookup n (ms_vars caller)).
+Proof. exact (without_copy_only_named_expected gen_fit_facts C20_fit_facts_pinned). Qed.
+Print Assumptions C20_without_copy_only_named_entries_change.
+
 (** LocalScipyMinimizer's name <-> position packing keeps an honest positional optimiser honest *)
 Theorem C20_scipy_packing_honest :
   forall (T : Type) (names : list name) (s : vstrat) (seen : list (list T * rloss)),
@@ -202,6 +263,56 @@ Theorem C20_scipy_packing_honest :
     honest (map (fun e => (combine names (fst e), snd e)) seen) (lift_vstrat names s).
 Proof. exact (fun T => lift_honest (T:=T)). Qed.
 Print Assumptions C20_scipy_packing_honest.
+
+(** LocalScipyMinimizer hands the positional optimiser the box [[bounds.get(name, default) for name in p0]]
+    ([aligned_bounds]: position i carries the interval of the i-th NAME of p0, the user's entry for that name or
+    the default (1e-6, 1e6)).  Hence every reported parameter lies within ITS OWN bounds -- for every positional
+    optimiser that answers inside the box it was handed ([within] is any notion of "v lies in the interval b") *)
+Theorem C20_scipy_bounds_by_name :
+  forall (T : Type) (O : num_ops T) (within : T * T -> T -> Prop) (k : fit_kind) (S : settings)
+         (as_deepcopy : option bool) (caller : mstate) (p0 : list (name * T))
+         (scipy_minimize : list T -> list (T * T) -> vstrat) (bounds : list (name * (T * T)))
+         (caller_after fit_model : mstate) (best_pars : list (name * T)) (loss : T),
+    (forall x0 box, vleaves_sat (fun x _ => Forall2 within box x) (scipy_minimize x0 box)) ->
+    fit O gen_fit_facts k S as_deepcopy caller p0 (local_scipy_minimizer O gen_fit_facts scipy_minimize bounds)
+      = (caller_after, FitOk fit_model best_pars loss) ->
+    forall n v, In (n, v) best_pars ->
+      within (match lookup n bounds with
+              | Some b => b
+              | None => (o_ofQ O (1 # 1000000), o_ofQ O (1000000 # 1)) end) v.
+Proof. exact (fun T O => scipy_bounds_by_name O gen_fit_facts). Qed.
+Print Assumptions C20_scipy_bounds_by_name.
+
+(** a start that lies within the bounds of ITS OWN names is not moved by the projection into that box (whatever
+    subset of the names the user bounded, in whatever order) *)
+Theorem C20_scipy_start_within_own_bounds_is_kept :
+  forall (T : Type) (O : num_ops T) (within : T * T -> T -> Prop) (clip1 : T * T -> T -> T)
+         (bounds : list (name * (T * T))) (p0 : list (name * T)),
+    (forall b v, within b v -> clip1 b v = v) ->
+    (forall n v, In (n, v) p0 -> within (bound_for O gen_fit_facts bounds n) v) ->
+    clip_box clip1 (aligned_bounds O gen_fit_facts bounds (keys p0)) (map snd p0) = map snd p0.
+Proof. exact (fun T O => clip_start_kept O gen_fit_facts). Qed.
+Print Assumptions C20_scipy_start_within_own_bounds_is_kept.
+
+(** never worse than the start THROUGH LocalScipyMinimizer, with user bounds on any subset of the parameters in
+    any order: a box-constrained optimiser (first evaluates the projection of x0 into its box, answers nothing
+    worse than what it saw there) started within the bounds of its own names reports a loss [le] the pristine
+    model's loss at p0 (or that loss is +inf) *)
+Theorem C20_scipy_not_worse_than_start :
+  forall (T : Type) (O : num_ops T) (le : T -> T -> Prop) (within : T * T -> T -> Prop) (clip1 : T * T -> T -> T)
+         (k : fit_kind) (S : settings) (as_deepcopy : option bool) (caller : mstate) (p0 : list (name * T))
+         (bounds : list (name * (T * T))) (continue_with : list (T * T) -> rloss -> vstrat)
+         (caller_after fit_model : mstate) (best_pars : list (name * T)) (loss : T),
+    (forall b v, within b v -> clip1 b v = v) ->
+    (forall n v, In (n, v) p0 -> within (bound_for O gen_fit_facts bounds n) v) ->
+    (forall box b, vleaves_sat (fun _ f => le f b) (continue_with box (RVal b))) ->
+    fit O gen_fit_facts k S as_deepcopy caller p0
+        (local_scipy_minimizer O gen_fit_facts (fun x0 box => VAsk (clip_box clip1 box x0) (continue_with box)) bounds)
+      = (caller_after, FitOk fit_model best_pars loss) ->
+    snd (residual_step O gen_fit_facts k (route S caller p0) caller p0) = RInf
+    \/ exists b, snd (residual_step O gen_fit_facts k (route S caller p0) caller p0) = RVal b /\ le loss b.
+Proof. exact (scipy_not_worse_than_start_expected gen_fit_facts C20_fit_facts_pinned). Qed.
+Print Assumptions C20_scipy_not_worse_than_start.
 
 (** non-vacuity: an honest minimiser, a real model (dx/dt = k_in - k_out x), data generated by it; the fit
     finds k_in = 2 with loss 0 from the start k_in = 1 and leaves the caller's model alone *)
@@ -211,3 +322,26 @@ Example C20_nonvacuous :
   = (ex_caller, FitOk (mkState (al [(1%N, 1 # 2); (2%N, 1 # 2)]) (al [(10%N, 1%Q)])) (al [(1%N, 2%Q)]) (Some 0%Q)).
 Proof. exact nonvacuous_fit. Qed.
 Print Assumptions C20_nonvacuous.
+
+(** non-vacuity with a [y0] argument that differs from the caller's initial condition (3 vs 1): the private copy
+    carries y0, the caller's model -- parameters AND initial conditions -- is what it was *)
+Example C20_nonvacuous_y0 :
+  fit QoOps expected_fit_facts KTimeCourse (ex_settings_y0 (loss_mean_squared QoOps)) None ex_caller ex_p0 probe_minimiser
+  = (ex_caller, FitOk (mkState (al [(1%N, 1 # 2); (2%N, 1 # 2)]) (al [(10%N, 3%Q)])) (al [(1%N, 2%Q)]) (Some 0%Q)).
+Proof. exact nonvacuous_fit_y0. Qed.
+Print Assumptions C20_nonvacuous_y0.
+
+(** non-vacuity of the bounds theorems: p0 = {k_out: 1/2, k_in: 1}, the user bounds only the SECOND name, k_in, to
+    (3/4, 3/2): the start lies within its own bounds; the box is [default; (3/4, 3/2)]; the fit through the model of
+    LocalScipyMinimizer answers k_in = 3/2 (the truth 2 is outside the box); and the list "user-bounded names first"
+    (seeded change C20-1) would have moved that start *)
+Example C20_bounds_nonvacuous :
+  (forall n v, In (n, v) ex_p0_2 -> oq_within (bound_for QoOps expected_fit_facts ex_bounds_2 n) v) /\
+  aligned_bounds QoOps expected_fit_facts ex_bounds_2 (keys ex_p0_2)
+    = [(qv (1 # 1000000), qv (1000000 # 1)); (qv (3 # 4), qv (3 # 2))] /\
+  fit QoOps expected_fit_facts KTimeCourse (ex_settings2 (loss_mean_squared QoOps)) None ex_caller ex_p0_2
+      (local_scipy_minimizer QoOps expected_fit_facts vprobe ex_bounds_2)
+  = (ex_caller, FitOk (mkState (al [(1%N, 3 # 4); (2%N, 1 # 2)]) (al [(10%N, 1%Q)])) (al [(2%N, 1 # 2); (1%N, 3 # 2)]) (Some (2409 # 16384))) /\
+  clip_box oq_clip (user_first_bounds expected_fit_facts ex_bounds_2 (keys ex_p0_2)) (map snd ex_p0_2) <> map snd ex_p0_2.
+Proof. exact bounds_nonvacuous. Qed.
+Print Assumptions C20_bounds_nonvacuous.
